@@ -654,7 +654,7 @@ void d_string_erase(DString * baseString, size_t pos, size_t len) {
 			return;
 		}
 
-		if ((pos + len) >= baseString->currentStringLength) {
+		if (len >= baseString->currentStringLength - pos) {
 			len = -1;
 		}
 
@@ -708,7 +708,7 @@ char * d_string_copy_substring(DString * d, size_t start, size_t len) {
 			}
 		}
 
-		if (start + len > d->currentStringLength) {
+		if ((start > d->currentStringLength) || (len > d->currentStringLength - start)) {
 			fprintf(stderr, "d_string: Asked to copy invalid substring range.\n");
 			fprintf(stderr, "start: %lu  len: %lu  string: %lu\n", start, len,
 					d->currentStringLength);
@@ -776,10 +776,10 @@ long d_string_replace_text_in_range(DString * d, size_t pos, size_t len, const c
 		if (len == -1) {
 			stop = d->currentStringLength;
 		} else {
-			stop = pos + len;
-
-			if (stop > d->currentStringLength) {
+			if (len > d->currentStringLength - pos) {
 				stop = d->currentStringLength;
+			} else {
+				stop = pos + len;
 			}
 		}
 
